@@ -308,6 +308,14 @@ func (tx *TransactionImpl) Rollback() error {
 	return nil
 }
 
+// lastActive returns the time of the last call on this transaction. The
+// registry's stale-transaction cleanup reads it from another goroutine.
+func (tx *TransactionImpl) lastActive() time.Time {
+	tx.mu.Lock()
+	defer tx.mu.Unlock()
+	return tx.lastActiveTime
+}
+
 // IsReadOnly returns true if this is a read-only transaction
 func (tx *TransactionImpl) IsReadOnly() bool {
 	return tx.mode == ReadOnly
